@@ -50,6 +50,9 @@ def statmech(name, comp, rnd, refs, cov):
     from pmutt.statmech import StatMech, trans, vib, rot, elec, nucl
     from pmutt.empirical.references import References
     mw = sum(_AW[e] * n for e, n in comp.items())
+    # the translational mass is the user's own number (rounded, isotopic, a dimer's): it is NOT
+    # the mass the per-mass forms divide by (that is the composition's, _get_R_adj(units, elements))
+    mw = rnd.choice([float(round(mw)) + 1., mw + 1.006, 2. * mw])
     kw = {}
     if refs:
         kw['references'] = References(offset={e: rnd.uniform(-3., 3.) for e in ('H', 'N', 'O')},
@@ -65,7 +68,7 @@ def statmech(name, comp, rnd, refs, cov):
                     elec_model=elec.GroundStateElec(potentialenergy=rnd.uniform(-30., -1.),
                                                     spin=rnd.choice([0., 0.5, 1.])),
                     nucl_model=nucl.EmptyNucl(),
-                    elements=dict(comp), **kw)
+                    elements=comp, **kw)
 
 
 def _pert(vals, rnd, rel=0.05):
@@ -80,7 +83,7 @@ def nasa(name, comp, rnd, cov, phase='G'):
     a_high[0] += rnd.uniform(0.5, 1.5)
     a_high[5] += rnd.uniform(400., 1200.)
     a_high[6] += rnd.uniform(0.5, 2.)
-    return Nasa(name=name, elements=dict(comp), phase=phase, T_low=200., T_mid=1000., T_high=3000.,
+    return Nasa(name=name, elements=comp, phase=phase, T_low=200., T_mid=1000., T_high=3000.,
                 a_low=np.array(_pert(H2O_LOW, rnd)), a_high=np.array(a_high),
                 misc_models=[cov_model(name, rnd)] if cov else None)
 
@@ -95,7 +98,7 @@ def nasa9(name, comp, rnd, cov, phase='G'):
                          rnd.uniform(-1e-15, 1e-15), rnd.uniform(-4e4, -1e4), rnd.uniform(-5., 10.)])
     nasas = [SingleNasa9(T_low=200., T_high=1000., a=coeffs()),
              SingleNasa9(T_low=1000., T_high=6000., a=coeffs())]
-    return Nasa9(name=name, nasas=nasas, elements=dict(comp), phase=phase,
+    return Nasa9(name=name, nasas=nasas, elements=comp, phase=phase,
                  misc_models=[cov_model(name, rnd)] if cov else None)
 
 
@@ -104,7 +107,7 @@ def shomate(name, comp, rnd, cov, phase='G', own='J/mol/K'):
     from pmutt.empirical.shomate import Shomate
     own = 'J/mol/K' if own in (None, 'none') else own
     a = np.array(_pert(H2O_SHOMATE, rnd)) * (R_DOC[own] / R_DOC['J/mol/K'])
-    return Shomate(name=name, elements=dict(comp), phase=phase, T_low=500., T_high=1700.,
+    return Shomate(name=name, elements=comp, phase=phase, T_low=500., T_high=1700.,
                    a=a, units=own,
                    misc_models=[cov_model(name, rnd)] if cov else None)
 
@@ -149,7 +152,7 @@ def aux(kind, name, comp, rnd):
         return cov_model(name, rnd)
     if kind == 'Reference':
         from pmutt.empirical.references import Reference
-        return Reference(name=name, elements=dict(comp), T_ref=298.15, HoRT_ref=rnd.uniform(-200., 50.))
+        return Reference(name=name, elements=comp, T_ref=298.15, HoRT_ref=rnd.uniform(-200., 50.))
     if kind == 'References':
         from pmutt.empirical.references import References
         return References(offset={e: rnd.uniform(-3., 3.) for e in ('H', 'N', 'O')},
@@ -174,6 +177,28 @@ def comp_variant(comp, variant):
     if variant == 'float_counts':
         return {e: float(n) for e, n in comp.items()}
     return dict(comp)
+
+
+ELEMENT_EDITS = ['add_element', 'change_count', 'callers_dict']
+
+
+def edit_elements(obj, given, how):
+    """edit the composition IN PLACE (no re-assignment of the attribute); `given` is the dict
+    the caller handed to the constructor"""
+    if how == 'add_element':
+        missing = [e for e in ('N', 'O', 'H') if not obj.elements.get(e)]
+        e = missing[0] if missing else 'N'
+        obj.elements[e] = obj.elements.get(e, 0) + 1
+    elif how == 'change_count':
+        e = sorted(k for k, v in obj.elements.items() if v)[0]
+        obj.elements[e] = obj.elements[e] + 2
+    else:
+        e = sorted(k for k, v in given.items() if v)[-1]
+        given[e] = given[e] + 1
+
+
+def current_comp(obj):
+    return {e: obj.elements.get(e, 0) for e in ('H', 'N', 'O')}
 
 
 def sibling_comp(comp):
@@ -205,7 +230,7 @@ def reaction(cls, kind, rnd, refs, cov):
         from pmutt.reaction import ChemkinReaction as K
     else:
         from pmutt.omkm.reaction import SurfaceReaction as K
-    sp = [species(kind, nm, rnd.choice(COMPS)[1], rnd, refs, cov) for nm in ('A', 'B', 'C', 'TS')]
+    sp = [species(kind, nm, dict(rnd.choice(COMPS)[1]), rnd, refs, cov) for nm in ('A', 'B', 'C', 'TS')]
     st = lambda: rnd.choice([1., 1., 2., 0.5])
     return K(reactants=[sp[0], sp[1]], reactants_stoich=[st(), st()], products=[sp[2]],
              products_stoich=[st()], transition_state=[sp[3]], transition_state_stoich=[1.])
@@ -229,9 +254,9 @@ def build(cell, rnd, comp_var='ints', sibling_of=None):
         given = comp_variant(comp, comp_var)
         if cls in ('Reference', 'References'):
             obj = aux(cls, name, given, rnd)
-            return obj, (full if cls == 'Reference' else zero), 'mode', (name, comp)
+            return obj, (full if cls == 'Reference' else zero), 'mode', (name, comp, given)
         return species(cls, name, given, rnd, cell['refs'], cell['cov'], cell['phase'], cell['own']), \
-            full, cls, (name, comp)
+            full, cls, (name, comp, given)
     if cell['isaux']:
         return aux(cls, 'A', {}, rnd), zero, ('SingleNasa9' if cls == 'SingleNasa9' else 'mode'), None
     return mode(cls, rnd), zero, 'mode', None
